@@ -3,6 +3,8 @@ package checks
 import (
 	"context"
 	"fmt"
+	"github.com/DrmagicE/gmqtt/pkg/codes"
+	"github.com/DrmagicE/gmqtt/server"
 	"math/rand/v2"
 	"sort"
 	"strings"
@@ -75,6 +77,16 @@ func fedSetup(p *sim.Plan) *sim.Setup {
 	return &sim.Setup{
 		Ext:     cl,
 		Cleanup: func() { simfed.Install(nil) },
+		// the embedding program's own OnMsgArrived hook (innermost: the federation plugin wraps it) refuses messages
+		// whose payload says so: what a hook refuses is forwarded to no peer either
+		EditHooks: func(w *sim.World, n int, h *server.Hooks) {
+			h.OnMsgArrived = func(ctx context.Context, client server.Client, req *server.MsgArrivedRequest) error {
+				if strings.HasPrefix(string(req.Publish.Payload), "rej-") {
+					return codes.NewError(codes.NotAuthorized)
+				}
+				return nil
+			}
+		},
 		Config: func(w *sim.World, n int, cfg *config.Config) {
 			if cl.S == nil {
 				cl.S, cl.After, cl.T0 = w.S, w.After, w.T0
